@@ -155,6 +155,19 @@ theorem C04_std_legacy (o : Oracles) (pk : Bytes) (hpk : pk.length = 32) (tx : T
   rw [execute_stdLegacy o pk hpk tx e hh]
   exact stdResult_iff o pk tx 0
 
+/-- **the position among the inputs is a byte.** The environment a covenant sees carries the input's
+    position reduced mod 256 (`validate_tx_scripts` casts the index to `u8`; `validateTxScripts` builds the
+    environment with `spenderIndex := spendIdx % 256`) … -/
+theorem C04_spender_index_wraps (s : State) (fb : Header) (tx : Tx) (i : Nat) (id : CoinID)
+    (coin : CoinDataHeight) : (spendEnv s fb tx i id coin).spenderIndex = i % 256 := rfl
+
+/-- … so input number 256 is told it is input number 0 (and a covenant of the same coin could not tell
+    the two positions apart) -/
+theorem C04_spender_index_wraps_256 (s : State) (fb : Header) (tx : Tx) (id : CoinID)
+    (coin : CoinDataHeight) :
+    (spendEnv s fb tx 256 id coin).spenderIndex = 0 ∧
+    spendEnv s fb tx 256 id coin = spendEnv s fb tx 0 id coin := ⟨rfl, rfl⟩
+
 end Mel
 
 #print axioms Mel.C04_gate
@@ -171,3 +184,5 @@ end Mel
 #print axioms Mel.C04_env_stable
 #print axioms Mel.C04_std_new
 #print axioms Mel.C04_std_legacy
+#print axioms Mel.C04_spender_index_wraps
+#print axioms Mel.C04_spender_index_wraps_256
